@@ -450,6 +450,10 @@ def compare(op, a, b):
     if np_ is not None:
         za, zb, _ = np_
         return {'<': za < zb, '<=': za <= zb, '>': za > zb, '>=': za >= zb}[op]
+    if ka == KName and kb == KName:
+        # names are atoms: their (string) order is some total order on atoms
+        za, zb = a.z, b.z
+        return {'<': za < zb, '<=': za <= zb, '>': za > zb, '>=': za >= zb}[op]
     if ka == KStr and kb == KStr:
         za, zb = lift(a).z, lift(b).z
         if op == '<':
@@ -539,7 +543,7 @@ def arith(op, a, b):
         return SVal(k, [za * zb])
     if op == '/':
         za, zb = (z3.ToReal(za), z3.ToReal(zb)) if k == KInt else (za, zb)
-        return SR(za / zb)
+        return SR(real_div(za, zb))
     if op == '//':
         if k == KInt:
             return SI(pydiv(za, zb))
@@ -577,6 +581,22 @@ def str_concat(parts):
     if len(merged) == 1:
         return merged[0]
     return z3.Concat(*merged)
+
+
+_rdiv = z3.Function('rdiv', R, R, R)
+RDIV_FACTS = [False]
+
+
+def real_div(za, zb):
+    """Real division.  By a numeral: native (linear).  By a symbolic divisor: an uninterpreted function
+    with the ground facts of division that keep the obligations linear (exact product, sign for a
+    positive divisor); monotonicity in the numerator is a quantified axiom stated where it is needed."""
+    if z3.is_rational_value(zb) or z3.is_int_value(zb):
+        return za / zb
+    q = _rdiv(za, zb)
+    if RDIV_FACTS[0]:
+        add_axiom(z3.Implies(zb > 0, z3.And((q < 0) == (za < 0), (q == 0) == (za == 0), (q > 0) == (za > 0))))
+    return q
 
 
 def pydiv(a, b):
